@@ -2,6 +2,7 @@
 """import_seeds.py -- copy confirmed seeded changes from /tmp/seed_out into /verif/seeded/<prop>-<k>/ ."""
 import json, os, shutil, sys, glob
 V = os.path.dirname(os.path.dirname(os.path.abspath(__file__)))
+FIRST_MISSED = {"C06-1", "C06-3", "C07-1", "C08-2", "C17-3", "C10-2", "C15-2", "C15-3", "C19-2", "C13-1"}
 for d in sorted(glob.glob("/tmp/seed_out/C*/*")):
     prop, k = d.split("/")[-2], d.split("/")[-1]
     rp = os.path.join(d, "result.json")
@@ -27,5 +28,14 @@ for d in sorted(glob.glob("/tmp/seed_out/C*/*")):
     meta["check_result"] = {"detected": res.get("detected"), "concrete_replay": res.get("concrete_replay"),
                             "lines": res.get("check", {}).get("lines", [])[-4:],
                             "first_violations": [v.get("what", "")[:200] for v in res.get("check", {}).get("violation_summaries", [])[:3]]}
+    old = {}
+    if os.path.exists(os.path.join(out, "meta.json")):
+        old = json.load(open(os.path.join(out, "meta.json")))
+    first_missed = old.get("missed_by_first_version") or (old.get("check_result", {}).get("detected") is False) \
+        or ("%s-%s" % (prop, k)) in FIRST_MISSED
+    if first_missed:
+        meta["missed_by_first_version"] = True
+        meta["history"] = ("missed by the first version of the check; the check was strengthened (DESIGN.md 10.6) and the result "
+                           "below is from the strengthened check")
     json.dump(meta, open(os.path.join(out, "meta.json"), "w"), indent=1)
     print("imported", prop, k, "detected" if res.get("detected") else "MISSED")
